@@ -178,6 +178,9 @@ def disabled_sessions(ctx: Ctx):
     ctx.coverage["oracle"]["disabled_sessions"] = len(confs)
     from .. import xfailfam
     xfailfam.check(ctx, "C06")
+    # constructor calls (dataclass / namedtuple / attrs, positional and keyword arguments) without flags: transparent, and Model/CallAssign.v
+    from .. import callassign as ca
+    ca.check_part(ctx, 200 if not ctx.thorough else 2500, "C06", positional=False, noflags=True)
 
 
 SESSION_SRC = """from inline_snapshot import snapshot
@@ -307,6 +310,9 @@ def replay(ctx: Ctx, data):
     if case.get("kind") == "xfail":
         from .. import xfailfam
         return xfailfam.replay(case, "C06")
+    if case.get("kind") == "call":
+        from .. import callassign as ca
+        return ca.replay_case(case)
     if case.get("kind") == "diff":
         src = case["source"]
         hdr, _, rest = src.partition(REC)
